@@ -36,6 +36,8 @@ ZEROS = {
     'order': {('B', 'A'): [(2, 0)]},
     'two-keys': {('A', 'B'): [(0, 0)], ('C',): [(1,)]},
     'slice': {('A', 'B'): [(0, 0), (0, 1), (0, 2)]},
+    'rotated3': {('C', 'A', 'B'): [(1, 0, 2), (0, 1, 1)]},
+    'rotated3b': {('B', 'C', 'A'): [(2, 1, 0)], ('B',): [(0,)]},
 }
 LISTS = {
     'AB': [('A', 'B')],
